@@ -58,6 +58,21 @@ func genC04(g *prng.R) c04Case {
 			}
 			cs.WantStore[id] = doc
 		}
+		if g.Chance(1, 6) {
+			// one object given by IRI whose document is of a type the
+			// vocabularies do not define: it cannot be stored, so the
+			// request cannot be accepted either ("stores every object")
+			id := R1 + "/objects/chat1"
+			doc := M{"type": "ChatMessage", "id": id, "content": "hello"}
+			sc.Remote[id] = sim.RemoteSpec{Doc: withCtx(doc)}
+			objs = append(objs, nil)
+			at := g.Intn(len(objs))
+			copy(objs[at+1:], objs[at:])
+			objs[at] = id
+			cs.WantStore[id] = doc
+			cs.Info["expect_error"] = true
+			cs.Info["unknown_typed_document"] = true
+		}
 		act["object"] = objs
 	case "Update":
 		var objs A
@@ -212,6 +227,19 @@ func genC04(g *prng.R) c04Case {
 			act["actor"] = accA
 		}
 		cs.Info["accept_verified"] = verified
+		if g.Chance(1, 6) {
+			// another object by IRI, of a type the vocabularies do not
+			// define: the request fails or the Follow next to it counts
+			id := R1 + "/objects/chat1"
+			sc.Remote[id] = sim.RemoteSpec{Doc: withCtx(M{"type": "ChatMessage", "id": id, "content": "hello"})}
+			if g.Bool() {
+				act["object"] = A{id, act["object"]}
+			} else {
+				act["object"] = A{act["object"], id}
+			}
+			cs.Info["expect_error"] = true
+			cs.Info["unknown_typed_document"] = true
+		}
 		gcol := M{"@context": AS, "type": "Collection", "id": alice() + "/following"}
 		switch g.Intn(4) {
 		case 0: // follows nobody yet
